@@ -332,9 +332,9 @@ Proof.
   - intros Htr Hr. subst r. apply (Htr pre1 b). exact Hf.
 Qed.
 
-Lemma inv_consume : forall f st s n, Inv f st s -> Inv f (consume st n) (f_consume s n).
+Lemma inv_consume : forall f st s n, wf f -> Inv f st s -> Inv f (consume st n) (f_consume s n).
 Proof.
-  intros f st s n (pre & Hf & Hpos & Hcur & Hbl & Hwin & Hoff & Hb & Hload & Hex & Htr).
+  intros f st s n Hwf (pre & Hf & Hpos & Hcur & Hbl & Hwin & Hoff & Hb & Hload & Hex & Htr).
   exists pre. unfold consume, f_consume, f_advance.
   cbn [rest position cur blen bpos bsize buf off win].
   splits; fin; try lia.
@@ -343,9 +343,544 @@ Proof.
     + rewrite Hex by exact E0. f_equal. lia.
     + destruct Hload as (pre0 & b & Hpre & Hbp & Hbs & Hbl' & Hbuf); [lia|].
       subst pre. rewrite Hbp, Hbs.
-      assert (Hwfp : True) by exact I.
-      replace (total_csize pre0 + csize b) with (total_csize (pre0 ++ [b]))
-        by (rewrite csum_app, csum_cons, csum_nil; lia).
-      (* needs well-formedness of the prefix: carried by the caller *)
-      admit.
-Admitted.
+      assert (Hwfp : wf (pre0 ++ [b])) by (rewrite Hf in Hwf; apply wf_app in Hwf; tauto).
+      pose proof (denote_boundary (pre0 ++ [b]) (rest st) 0 Hwfp) as H.
+      rewrite <- Hf, csum_app, csum_cons, csum_nil in H.
+      rewrite N.add_0_r in H. rewrite H by lia. f_equal. lia.
+Qed.
+
+Lemma Inv_bound : forall f st s, Inv f st s -> off s + win s <= total_dlen f.
+Proof.
+  intros f st s (pre & Hf & _ & _ & _ & _ & Hoff & _). rewrite Hoff, Hf, dsum_app. lia.
+Qed.
+
+Lemma Inv_cur : forall f st s, Inv f st s -> cur st <= blen st /\ win s = blen st - cur st /\ blen st <= 65536.
+Proof. intros f st s (pre & _ & _ & Hc & Hb & Hw & _). auto. Qed.
+
+(* ---- loading the next block when the current one is exhausted ------------------------- *)
+
+Lemma load_none : forall f st s, Inv f st s -> cur st = blen st ->
+  next_nonempty (rest st) (position st) = None ->
+  rest st = [] /\ win_at (chunks f) (off s) = 0.
+Proof.
+  intros f st s (pre & Hf & Hpos & Hcur & Hbl & Hwin & Hoff & _) Hex Hn.
+  apply next_nonempty_none in Hn. split; [exact Hn|].
+  rewrite Hf, Hn. replace (off s) with (total_dlen pre + 0) by lia.
+  rewrite win_at_prefix. reflexivity.
+Qed.
+
+Lemma load_some : forall f st s b p r np, Inv f st s -> cur st = blen st ->
+  next_nonempty (rest st) (position st) = Some (b, p, r, np) ->
+  exists pre1, f = pre1 ++ b :: r /\ p = total_csize pre1 /\ np = total_csize pre1 + csize b /\
+               total_dlen pre1 = off s /\ win_at (chunks f) (off s) = flen b /\
+               (flen b = 0 -> r = []).
+Proof.
+  intros f st s b p r np (pre & Hf & Hpos & Hcur & Hbl & Hwin & Hoff & _) Hex Hn.
+  destruct (next_nonempty_some _ _ _ _ _ _ Hn) as (es & Hes & Hr & Hp & Hnp & Hl).
+  exists (pre ++ es).
+  assert (Hd : total_dlen (pre ++ es) = off s) by (rewrite dsum_app, (all_empty_dsum es Hes); lia).
+  splits.
+  - rewrite Hf, Hr, app_assoc. reflexivity.
+  - rewrite csum_app. lia.
+  - rewrite csum_app. lia.
+  - exact Hd.
+  - rewrite Hf, Hr. replace (off s) with (total_dlen pre) by lia.
+    apply win_at_loaded; assumption.
+  - exact Hl.
+Qed.
+
+Lemma on_no_frame_id : forall st, on_no_frame st = st.
+Proof. reflexivity. Qed.
+
+Lemma fill_refines : forall f st s, wf f -> Inv f st s ->
+  snd (fill_buf st) = snd (f_fill (chunks f) s) /\
+  Inv f (fst (fill_buf st)) (fst (f_fill (chunks f) s)).
+Proof.
+  intros f st s Hwf HI. destruct (Inv_cur _ _ _ HI) as (Hc & Hw & Hb).
+  unfold fill_buf, f_fill, refill, has_remaining. cbn [fst snd].
+  destruct (N.ltb_spec (cur st) (blen st)) as [Hlt|Hge].
+  - destruct (N.ltb_spec 0 (win s)); [|lia]. split; [apply as_ref_spec|]; exact HI.
+  - destruct (N.ltb_spec 0 (win s)); [lia|].
+    assert (Hex : cur st = blen st) by lia.
+    unfold read_nonempty_block.
+    destruct (next_nonempty (rest st) (position st)) as [[[[b p] r] np]|] eqn:E; cbn [fst snd].
+    + destruct (load_some _ _ _ _ _ _ _ HI Hex E) as (pre1 & Hf & Hp & Hnp & Hd & Hwa & Hl).
+      assert (HI' : Inv f (mkState r np p (csize b) (flen b) 0 (buf_write (buf st) (fdata b)))
+                         (mkF (off s) (win_at (chunks f) (off s)))).
+      { subst p np. eapply Inv_ext.
+        - apply (inv_loaded f pre1 b r 0 (buf_write (buf st) (fdata b))); fin; try lia.
+          intros _. apply buf_write_firstn.
+        - cbn [off]. lia.
+        - cbn [win]. lia. }
+      split; [apply (as_ref_spec _ _ _ HI') | exact HI'].
+    + rewrite on_no_frame_id. destruct (load_none _ _ _ HI Hex E) as (Hr & Hwa).
+      assert (HI' : Inv f st (mkF (off s) (win_at (chunks f) (off s)))).
+      { eapply Inv_ext; [exact HI | reflexivity | cbn [win]; lia]. }
+      split; [apply (as_ref_spec _ _ _ HI') | exact HI'].
+Qed.
+
+(* the known class direct-read-at-eof-stale-len *)
+Definition stale_direct (st : state) (n : N) : Prop :=
+  65536 <= n /\ cur st = blen st /\ rest st = [] /\ blen st <> 0.
+
+Lemma read_refines : forall f st s n, wf f -> Inv f st s -> ~ stale_direct st n ->
+  snd (read st n) = snd (f_read (chunks f) s n) /\
+  Inv f (fst (read st n)) (fst (f_read (chunks f) s n)).
+Proof.
+  intros f st s n Hwf HI Hns. destruct (Inv_cur _ _ _ HI) as (Hc & Hw & Hb).
+  unfold read.
+  destruct (negb (has_remaining st) && (65536 <=? n)) eqn:Ed.
+  - (* direct path *)
+    apply andb_prop in Ed. destruct Ed as [Eh En]. unfold has_remaining in Eh.
+    assert (Hex : cur st = blen st) by lia. assert (Hn : 65536 <= n) by lia.
+    unfold f_read, refill. destruct (N.ltb_spec 0 (win s)); [lia|]. cbn [off win fst snd].
+    unfold read_nonempty_block.
+    destruct (next_nonempty (rest st) (position st)) as [[[[b p] r] np]|] eqn:E; cbn [fst snd].
+    + destruct (load_some _ _ _ _ _ _ _ HI Hex E) as (pre1 & Hf & Hp & Hnp & Hd & Hwa & Hl).
+      assert (Hfb : flen b <= 65536).
+      { rewrite Hf in Hwf. apply wf_app in Hwf. destruct Hwf as [_ Hq].
+        inversion Hq as [|? ? [_ Hb'] _]; exact Hb'. }
+      rewrite Hwa. replace (N.min n (flen b)) with (flen b) by lia. split.
+      * f_equal. rewrite Hf at 1. rewrite <- Hd.
+        pose proof (slice_frame pre1 b r 0) as Hs.
+        rewrite N.add_0_r, N.sub_0_r in Hs. rewrite Hs by lia. reflexivity.
+      * subst p np. eapply Inv_ext.
+        -- apply (inv_loaded f pre1 b r (flen b) (buf st)); fin; try lia.
+        -- unfold f_advance. cbn [off]. lia.
+        -- unfold f_advance. cbn [win]. lia.
+    + rewrite on_no_frame_id. destruct (load_none _ _ _ HI Hex E) as (Hr & Hwa).
+      assert (Hz : blen st = 0).
+      { destruct (N.eq_dec (blen st) 0) as [Z|NZ]; [exact Z|]. exfalso. apply Hns.
+        unfold stale_direct. auto. }
+      rewrite Hwa, Hz. replace (N.min n 0) with 0 by lia. rewrite slice_zero.
+      split; [reflexivity|].
+      eapply Inv_ext; [exact HI | unfold f_advance; cbn [off]; lia | unfold f_advance; cbn [win]; lia].
+  - (* through the block buffer *)
+    destruct (fill_refines f st s Hwf HI) as [Hr HI1].
+    destruct (fill_buf st) as [st1 r1]. cbn [fst snd] in Hr, HI1.
+    unfold f_fill in Hr, HI1. cbn [fst snd] in Hr, HI1. subst r1.
+    unfold f_read. set (s1 := refill (chunks f) s) in *. cbn [fst snd].
+    pose proof (Inv_bound _ _ _ HI1) as Hbd.
+    assert (Hlen : len (firstn (N.to_nat n) (slice (concat (chunks f)) (off s1) (win s1))) = N.min n (win s1)).
+    { rewrite firstn_slice. apply len_slice. rewrite len_concat_chunks. lia. }
+    rewrite Hlen. rewrite firstn_slice. split; [reflexivity|].
+    pose proof (inv_consume f st1 s1 (N.min n (win s1)) Hwf HI1) as HI2.
+    eapply Inv_ext; [exact HI2 | |]; unfold f_consume, f_advance; cbn [off win]; lia.
+Qed.
+
+Lemma Inv_trailing : forall f st s, Inv f st s -> trailing_empty f -> rest st = [] -> blen st = 0.
+Proof. intros f st s (pre & H). intros Ht Hr. apply H; assumption. Qed.
+
+Lemma not_stale : forall f st s n, Inv f st s -> n < 65536 \/ trailing_empty f -> ~ stale_direct st n.
+Proof.
+  intros f st s n HI [Hn|Ht] (H1 & H2 & H3 & H4); [lia|].
+  apply H4. eapply Inv_trailing; eassumption.
+Qed.
+
+(* ---- read_exact ----------------------------------------------------------------------- *)
+
+Lemma loop_refines : forall f, wf f -> forall fuel st s rem acc,
+  Inv f st s -> rem < 65536 \/ trailing_empty f ->
+  snd (default_read_exact fuel st rem acc) = snd (f_read_loop (chunks f) fuel s rem acc) /\
+  Inv f (fst (default_read_exact fuel st rem acc)) (fst (f_read_loop (chunks f) fuel s rem acc)).
+Proof.
+  intros f Hwf. induction fuel as [|k IH]; intros st s rem acc HI Hok.
+  - cbn [default_read_exact f_read_loop fst snd]. split; [reflexivity | exact HI].
+  - cbn [default_read_exact f_read_loop].
+    destruct (rem =? 0); [cbn [fst snd]; split; [reflexivity | exact HI]|].
+    destruct (read_refines f st s rem Hwf HI (not_stale _ _ _ _ HI Hok)) as [Hr HI1].
+    destruct (read st rem) as [st1 r1]. cbn [fst snd] in Hr, HI1.
+    unfold f_read in *. cbn [fst snd] in *. subst r1.
+    set (bs := slice (concat (chunks f)) (off (refill (chunks f) s)) (N.min rem (win (refill (chunks f) s)))) in *.
+    destruct (len bs =? 0); [cbn [fst snd]; split; [reflexivity | exact HI1]|].
+    apply IH; [exact HI1|]. destruct Hok as [Hn|Ht]; [left; lia | right; exact Ht].
+Qed.
+
+Lemma read_exact_std_refines : forall f st s n, wf f -> Inv f st s ->
+  n < 65536 \/ trailing_empty f ->
+  snd (read_exact_std st n) = snd (f_read_exact_std (chunks f) s n) /\
+  Inv f (fst (read_exact_std st n)) (fst (f_read_exact_std (chunks f) s n)).
+Proof. intros. unfold read_exact_std, f_read_exact_std. apply loop_refines; assumption. Qed.
+
+Lemma read_exact_refines : forall f st s n, wf f -> Inv f st s ->
+  n < 65536 \/ trailing_empty f ->
+  snd (read_exact st n) = snd (f_read_exact (chunks f) s n) /\
+  Inv f (fst (read_exact st n)) (fst (f_read_exact (chunks f) s n)).
+Proof.
+  intros f st s n Hwf HI Hok. unfold read_exact, f_read_exact.
+  rewrite (as_ref_spec _ _ _ HI).
+  pose proof (Inv_bound _ _ _ HI) as Hbd.
+  rewrite len_slice by (rewrite len_concat_chunks; lia).
+  destruct (N.leb_spec n (win s)) as [Hle|Hgt].
+  - cbn [fst snd]. rewrite firstn_slice. replace (N.min n (win s)) with n by lia.
+    split; [reflexivity|].
+    pose proof (inv_consume f st s n Hwf HI) as HI2.
+    eapply Inv_ext; [exact HI2 | |]; unfold f_consume, f_advance; cbn [off win]; lia.
+  - apply read_exact_std_refines; assumption.
+Qed.
+
+(* ---- seek ------------------------------------------------------------------------------ *)
+
+(* outside the known class seek-eof-stale-block: a seek to the end-of-file position is only
+   covered when the buffered block is an empty block whose end names the end of the data *)
+Definition seek_ok (f : file) (st : state) (v : N) : Prop :=
+  vcomp v = total_csize f ->
+  blen st = 0 /\ denote f (pack (bpos st + bsize st) 0) = Some (total_dlen f).
+
+Lemma all_empty_hdlen : forall es b r, all_empty es -> hdlen (es ++ b :: r) <= flen b.
+Proof.
+  intros [|e es] b r H; cbn [app hdlen]; [lia|]. inversion H; subst. lia.
+Qed.
+
+Lemma seek_refines : forall f st s v s0 l, wf f -> Inv f st s ->
+  frame_start f 0 0 (vcomp v) = Some (s0, l) -> vuncomp v <= l -> seek_ok f st v ->
+  snd (seek f st v) = Ok v /\ Inv f (fst (seek f st v)) (f_seek (chunks f) s0 (vuncomp v)).
+Proof.
+  intros f st s v s0 l Hwf HI Hfs Hu Hok.
+  destruct (frame_start_split _ _ _ _ _ _ Hfs) as (p & q & Hf & Hc & Hs0 & Hl & Hd).
+  rewrite N.add_0_l in Hc, Hs0.
+  unfold seek. rewrite Hd. unfold read_nonempty_block. cbn [rest position].
+  destruct (next_nonempty q (vcomp v)) as [[[[b p1] r] np]|] eqn:E; cbn [fst snd rest position bpos bsize blen buf].
+  - split; [reflexivity|].
+    destruct (next_nonempty_some _ _ _ _ _ _ E) as (es & Hes & Hq & Hp1 & Hnp & Hlast).
+    assert (Hub : vuncomp v <= flen b).
+    { subst l q. pose proof (all_empty_hdlen es b r Hes). lia. }
+    assert (Hf' : f = (p ++ es) ++ b :: r) by (rewrite Hf, Hq, app_assoc; reflexivity).
+    replace p1 with (total_csize (p ++ es)) by (rewrite csum_app; lia).
+    replace np with (total_csize (p ++ es) + csize b) by (rewrite csum_app; lia).
+    eapply Inv_ext.
+    + apply (inv_loaded f (p ++ es) b r (vuncomp v)); fin.
+      intros _. apply buf_write_firstn.
+    + unfold f_seek. cbn [off]. rewrite dsum_app, (all_empty_dsum es Hes). lia.
+    + unfold f_seek. cbn [win]. subst s0. rewrite Hf, Hq.
+      rewrite win_at_loaded by assumption. reflexivity.
+  - split; [reflexivity|]. rewrite on_no_frame_id. cbn [rest position bpos bsize blen buf].
+    apply next_nonempty_none in E. subst q. rewrite app_nil_r in Hf. subst p.
+    cbn [hdlen] in Hl. destruct (Hok Hc) as [Hb0 Hden].
+    destruct HI as (pre & Hf0 & Hpos & Hcur & Hbl & Hwin & Hoff & Hb & Hload & Hex & Htr).
+    assert (Hwa : win_at (chunks f) (total_dlen f) = 0).
+    { pose proof (win_at_prefix f [] 0) as H. rewrite app_nil_r, N.add_0_r in H. exact H. }
+    exists f. unfold f_seek. cbn [rest position cur blen bpos bsize buf off win].
+    subst s0. rewrite Hwa.
+    splits; fin; try lia.
+    + rewrite app_nil_r. reflexivity.
+    + intros _. rewrite Hden. f_equal. lia.
+Qed.
+
+(* ---- gzi -------------------------------------------------------------------------------- *)
+
+Fixpoint sel (cand : N * N) (idx : gzi_index) (p : N) : N * N :=
+  match idx with
+  | [] => cand
+  | e :: r => if snd e <=? p then sel e r p else cand
+  end.
+
+Lemma gzi_entry_sel : forall idx p cand d,
+  match partition_point (fun r => snd r <=? p) idx with O => cand | S j => nth j idx d end
+  = sel cand idx p.
+Proof.
+  induction idx as [|e r IH]; intros p cand d; [reflexivity|].
+  cbn [partition_point sel]. destruct (snd e <=? p); [|reflexivity].
+  specialize (IH p e d).
+  destruct (partition_point (fun r0 => snd r0 <=? p) r) as [|j]; cbn [nth]; exact IH.
+Qed.
+
+Lemma sel_frames : forall r b c d p, d <= p -> p <= d + total_dlen (b :: r) ->
+  exists pre' b' post, b :: r = pre' ++ b' :: post /\
+    sel (c, d) (gzi_entries r (c + csize b) (d + flen b)) p
+      = (c + total_csize pre', d + total_dlen pre') /\
+    d + total_dlen pre' <= p /\
+    (p < d + total_dlen pre' + flen b' \/ (post = [] /\ p = d + total_dlen pre' + flen b')).
+Proof.
+  induction r as [|b1 r1 IH]; intros b c d p Hlo Hhi.
+  - exists [], b, []. cbn [gzi_entries sel app]. rewrite dsum_cons, dsum_nil in Hhi.
+    rewrite csum_nil, dsum_nil. splits; fin; try (f_equal; lia).
+    destruct (N.eq_dec p (d + flen b)); [right; split; [reflexivity | lia] | left; lia].
+  - cbn [gzi_entries sel snd].
+    destruct (N.leb_spec (d + flen b) p) as [Hge|Hlt].
+    + rewrite (dsum_cons b) in Hhi.
+      destruct (IH b1 (c + csize b) (d + flen b) p Hge ltac:(lia)) as (pre' & b' & post & He & Hs & H1 & H2).
+      exists (b :: pre'), b', post. rewrite He, Hs, csum_cons, dsum_cons. cbn [app].
+      splits; fin; try (f_equal; lia). destruct H2 as [H2|[H2 H3]]; [left; lia | right; split; [exact H2 | lia]].
+    + exists [], b, (b1 :: r1). rewrite csum_nil, dsum_nil. cbn [app].
+      splits; fin; try (f_equal; lia).
+Qed.
+
+Lemma gzi_query_spec : forall f p, wf f -> total_csize f <= MAX_COMPRESSED_POSITION ->
+  p <= total_dlen f ->
+  (p = total_dlen f -> forall q b, f = q ++ [b] -> flen b < 65536) ->
+  exists v s0 l, gzi_query (gzi_of f) p = Ok v /\
+     frame_start f 0 0 (vcomp v) = Some (s0, l) /\ vuncomp v <= l /\ s0 + vuncomp v = p /\
+     win_at (chunks f) s0 - vuncomp v = win_at (chunks f) p /\
+     (vcomp v = total_csize f -> f = []).
+Proof.
+  intros f p Hwf Hmax Hp Hlast. destruct f as [|b r].
+  - rewrite dsum_nil in Hp. assert (p = 0) by lia. subst p.
+    exists (pack 0 0), 0, 0. unfold gzi_query, gzi_entry, gzi_of. cbn [partition_point].
+    rewrite N.sub_0_r. change (65536 <=? 0) with false. cbv iota.
+    unfold vpos_try_from. change (0 <=? MAX_COMPRESSED_POSITION) with true. cbv iota.
+    rewrite vcomp_pack, vuncomp_pack by lia. cbn [frame_start]. rewrite N.eqb_refl.
+    splits; fin; try lia.
+  - unfold gzi_query, gzi_entry. rewrite gzi_entry_sel. unfold gzi_of.
+    destruct (sel_frames r b 0 0 p ltac:(lia) ltac:(lia)) as (pre' & b' & post & He & Hs & H1 & H2).
+    rewrite !N.add_0_l in *. rewrite Hs.
+    assert (Hwf' : wf pre' /\ wf (b' :: post)) by (rewrite He in Hwf; apply wf_app in Hwf; exact Hwf).
+    destruct Hwf' as [Hwp Hwq].
+    assert (Hb' : 0 < csize b' /\ flen b' <= 65536) by (inversion Hwq; assumption).
+    set (dd := p - total_dlen pre').
+    assert (Hdd : dd <= flen b' /\ dd < 65536).
+    { subst dd. destruct H2 as [H2|[H2 H3]]; [lia|].
+      subst post. specialize (Hlast ltac:(rewrite He, dsum_app, dsum_cons, dsum_nil; lia) pre' b' He). lia. }
+    destruct (N.leb_spec 65536 dd); [lia|].
+    unfold vpos_try_from.
+    assert (Hc : total_csize pre' <= MAX_COMPRESSED_POSITION).
+    { rewrite He, csum_app in Hmax. lia. }
+    destruct (N.leb_spec (total_csize pre') MAX_COMPRESSED_POSITION); [|lia].
+    exists (pack (total_csize pre') dd), (total_dlen pre'), (flen b').
+    rewrite vcomp_pack, vuncomp_pack by lia.
+    pose proof (frame_start_prefix pre' (b' :: post) 0 0 Hwp) as Hfs.
+    rewrite !N.add_0_l in Hfs. rewrite <- He in Hfs. cbn [hdlen] in Hfs.
+    splits; fin; try (subst dd; lia).
+    + rewrite He. replace p with (total_dlen pre' + dd) by (subst dd; lia).
+      replace (total_dlen pre') with (total_dlen pre' + 0) at 1 by lia.
+      rewrite !win_at_prefix.
+      destruct (N.eq_dec dd (flen b')) as [Ee|Ne].
+      * destruct H2 as [H2|[H2 H3]]; [subst dd; lia|]. subst post.
+        destruct (N.eq_dec (flen b') 0) as [Z|NZ].
+        -- rewrite Ee, Z. lia.
+        -- rewrite win_at_head by lia. unfold chunks. cbn [map win_at]. fold (flen b').
+           destruct (N.ltb_spec dd (flen b')); lia.
+      * rewrite !win_at_head by lia. lia.
+    + intros Hcc. exfalso. rewrite He, csum_app, csum_cons in Hcc. lia.
+Qed.
+
+Definition seeku_ok (f : file) (p : N) : Prop :=
+  p <= total_dlen f /\ (p = total_dlen f -> forall q b, f = q ++ [b] -> flen b < 65536).
+
+Lemma trailing_empty_nil : trailing_empty [].
+Proof. intros p b H. destruct p; discriminate. Qed.
+
+Lemma seeku_refines : forall f st s p, wf f -> total_csize f <= MAX_COMPRESSED_POSITION ->
+  Inv f st s -> seeku_ok f p ->
+  snd (seek_by_uncompressed_position f (gzi_of f) st p) = Ok p /\
+  Inv f (fst (seek_by_uncompressed_position f (gzi_of f) st p)) (f_seek_flat (chunks f) p).
+Proof.
+  intros f st s p Hwf Hmax HI [Hp Hlast].
+  destruct (gzi_query_spec f p Hwf Hmax Hp Hlast) as (v & s0 & l & Hq & Hfs & Hu & Hsum & Hwa & Heof).
+  unfold seek_by_uncompressed_position. rewrite Hq.
+  assert (Hok : seek_ok f st v).
+  { intros Hc. specialize (Heof Hc). subst f.
+    destruct HI as (pre & Hf0 & _ & _ & _ & _ & _ & Hb & _ & _ & Htr).
+    symmetry in Hf0. apply app_eq_nil in Hf0. destruct Hf0 as [_ Hr].
+    rewrite csum_nil in Hb. split; [apply Htr; [apply trailing_empty_nil | exact Hr]|].
+    replace (bpos st + bsize st) with 0 by lia.
+    unfold denote. rewrite vcomp_pack, vuncomp_pack by lia. reflexivity. }
+  destruct (seek_refines f st s v s0 l Hwf HI Hfs Hu Hok) as [Hr HI'].
+  destruct (seek f st v) as [st' r]. cbn [fst snd] in *. subst r. cbn [fst snd].
+  split; [reflexivity|].
+  eapply Inv_ext; [exact HI' | |]; unfold f_seek, f_seek_flat; cbn [off win]; lia.
+Qed.
+
+(* ---- what the reader tells -------------------------------------------------------------- *)
+
+Lemma vpos_denote : forall f st s, wf f -> total_csize f <= MAX_COMPRESSED_POSITION -> Inv f st s ->
+  exists v, virtual_position st = Ok v /\ denote f v = Some (off s).
+Proof.
+  intros f st s Hwf Hmax (pre & Hf & Hpos & Hcur & Hbl & Hwin & Hoff & Hb & Hload & Hex & Htr).
+  unfold virtual_position, has_remaining.
+  destruct (N.ltb_spec (cur st) (blen st)) as [Hlt|Hge].
+  - destruct (Hload Hlt) as (pre0 & b & Hpre & Hbp & Hbs & Hbl' & Hbuf).
+    assert (Hf' : f = pre0 ++ b :: rest st) by (rewrite Hf, Hpre, <- app_assoc; reflexivity).
+    assert (Hwp : wf pre0) by (rewrite Hf' in Hwf; apply wf_app in Hwf; tauto).
+    assert (Hc : bpos st <= MAX_COMPRESSED_POSITION).
+    { rewrite Hf', csum_app in Hmax. lia. }
+    unfold MAX_UNCOMPRESSED_POSITION.
+    destruct (N.leb_spec (bpos st) MAX_COMPRESSED_POSITION); [|lia].
+    destruct (N.leb_spec (cur st) 65535); [|lia]. cbn [andb].
+    exists (pack (bpos st) (cur st)). split; [reflexivity|].
+    rewrite Hbp, Hf'. rewrite denote_boundary by (try exact Hwp; cbn [hdlen]; lia).
+    f_equal. rewrite Hpre, dsum_app, dsum_cons, dsum_nil in Hoff. lia.
+  - destruct (N.leb_spec (bpos st + bsize st) MAX_COMPRESSED_POSITION); [|lia].
+    exists (pack (bpos st + bsize st) 0). split; [reflexivity|]. apply Hex. lia.
+Qed.
+
+(* ---- one step, whole histories ------------------------------------------------------------ *)
+
+Definition op_ok (f : file) (st : state) (o : op) : Prop :=
+  match o with
+  | Read n => ~ stale_direct st n
+  | ReadExact n | ReadExactStd n => n < 65536 \/ trailing_empty f
+  | FillBuf | Consume _ => True
+  | Seek v => (exists j, denote f v = Some j) /\ seek_ok f st v
+  | SeekU p => seeku_ok f p
+  end.
+
+Lemma step_refines : forall f st s o, wf f -> total_csize f <= MAX_COMPRESSED_POSITION ->
+  Inv f st s -> op_ok f st o ->
+  exists s' fo, fstep f s o = Some (s', fo) /\
+    out_eq (snd (step f (gzi_of f) st o)) fo /\ Inv f (fst (step f (gzi_of f) st o)) s'.
+Proof.
+  intros f st s o Hwf Hmax HI Hok. destruct o as [n|n|n| |n|v|p]; cbn [op_ok] in Hok; cbn [step fstep].
+  - destruct (read_refines f st s n Hwf HI Hok) as [Hr HI'].
+    destruct (read st n) as [st' r]. destruct (f_read (chunks f) s n) as [s' fr]. cbn [fst snd] in *.
+    exists s', (FBytes fr). splits; fin.
+  - destruct (read_exact_refines f st s n Hwf HI Hok) as [Hr HI'].
+    destruct (read_exact st n) as [st' r]. destruct (f_read_exact (chunks f) s n) as [s' fr]. cbn [fst snd] in *.
+    exists s', (FBytes fr). splits; fin.
+  - destruct (read_exact_std_refines f st s n Hwf HI Hok) as [Hr HI'].
+    destruct (read_exact_std st n) as [st' r]. destruct (f_read_exact_std (chunks f) s n) as [s' fr]. cbn [fst snd] in *.
+    exists s', (FBytes fr). splits; fin.
+  - destruct (fill_refines f st s Hwf HI) as [Hr HI'].
+    destruct (fill_buf st) as [st' r]. destruct (f_fill (chunks f) s) as [s' fr]. cbn [fst snd] in *.
+    exists s', (FBytes fr). splits; fin.
+  - exists (f_consume s n), FUnit. cbn [fst snd out_eq]. splits; fin. apply inv_consume; assumption.
+  - destruct Hok as [[j Hj] Hsk]. unfold denote in Hj.
+    destruct (frame_start f 0 0 (vcomp v)) as [[s0 l]|] eqn:Hfs; [|discriminate].
+    destruct (N.leb_spec (vuncomp v) l) as [Hu|]; [|discriminate].
+    destruct (seek_refines f st s v s0 l Hwf HI Hfs Hu Hsk) as [Hr HI'].
+    destruct (seek f st v) as [st' r]. cbn [fst snd] in *.
+    exists (f_seek (chunks f) s0 (vuncomp v)), (FPos (Ok v)). splits; fin.
+  - destruct (seeku_refines f st s p Hwf Hmax HI Hok) as [Hr HI'].
+    destruct (seek_by_uncompressed_position f (gzi_of f) st p) as [st' r]. cbn [fst snd] in *.
+    destruct Hok as [Hp _]. destruct (N.leb_spec p (total_dlen f)); [|lia].
+    exists (f_seek_flat (chunks f) p), (FPos (Ok p)). splits; fin.
+Qed.
+
+(* the flat reference run: per op its result and the flat offset afterwards *)
+Fixpoint frun (f : file) (s : fstate) (ops : list op) : option (list (fout * N)) :=
+  match ops with
+  | [] => Some []
+  | o :: r =>
+      match fstep f s o with
+      | None => None
+      | Some (s', x) =>
+          match frun f s' r with
+          | None => None
+          | Some l => Some ((x, off s') :: l)
+          end
+      end
+  end.
+
+(* every op of the history is outside the two known classes and every seek is valid *)
+Fixpoint ops_ok (f : file) (idx : gzi_index) (st : state) (ops : list op) : Prop :=
+  match ops with
+  | [] => True
+  | o :: r => op_ok f st o /\ ops_ok f idx (fst (step f idx st o)) r
+  end.
+
+Definition agrees (f : file) (x : out * res N) (y : fout * N) : Prop :=
+  out_eq (fst x) (fst y) /\ exists v, snd x = Ok v /\ denote f v = Some (snd y).
+
+Lemma run_refines : forall f, wf f -> total_csize f <= MAX_COMPRESSED_POSITION ->
+  forall ops st s, Inv f st s -> ops_ok f (gzi_of f) st ops ->
+  exists fl, frun f s ops = Some fl /\ Forall2 (agrees f) (run f (gzi_of f) st ops) fl.
+Proof.
+  intros f Hwf Hmax. induction ops as [|o r IH]; intros st s HI Hok.
+  - exists []. split; [reflexivity | constructor].
+  - destruct Hok as [Ho Hr].
+    destruct (step_refines f st s o Hwf Hmax HI Ho) as (s' & fo & Hfs & Heq & HI').
+    cbn [run frun]. rewrite Hfs.
+    destruct (step f (gzi_of f) st o) as [st' x] eqn:Es. cbn [fst snd] in *.
+    destruct (IH st' s' HI' Hr) as (fl & Hfl & Hall). rewrite Hfl.
+    exists ((fo, off s') :: fl). split; [reflexivity|]. constructor; [|exact Hall].
+    split; [exact Heq|]. cbn [fst snd]. apply vpos_denote; assumption.
+Qed.
+
+Theorem reader_refines_flat : forall f ops, wf f -> total_csize f <= MAX_COMPRESSED_POSITION ->
+  ops_ok f (gzi_of f) (init f) ops ->
+  exists fl, frun f (mkF 0 0) ops = Some fl /\
+             Forall2 (agrees f) (run f (gzi_of f) (init f) ops) fl.
+Proof.
+  intros f ops Hwf Hmax Hok. apply (run_refines f Hwf Hmax ops (init f) (mkF 0 0)); [|exact Hok].
+  apply inv_init. exact Hwf.
+Qed.
+
+(* ---- gzi lands on the byte ------------------------------------------------------------- *)
+
+Theorem gzi_lands : forall f p, wf f -> total_csize f <= MAX_COMPRESSED_POSITION ->
+  seeku_ok f p ->
+  exists v, gzi_query (gzi_of f) p = Ok v /\ denote f v = Some p.
+Proof.
+  intros f p Hwf Hmax [Hp Hlast].
+  destruct (gzi_query_spec f p Hwf Hmax Hp Hlast) as (v & s0 & l & Hq & Hfs & Hu & Hsum & _).
+  exists v. split; [exact Hq|]. unfold denote. rewrite Hfs.
+  destruct (N.leb_spec (vuncomp v) l); [f_equal; exact Hsum | lia].
+Qed.
+
+(* ---- the flat reference hands out the stream, in order ---------------------------------- *)
+
+Lemma refill_off : forall cs s, off (refill cs s) = off s.
+Proof. intros. unfold refill. destruct (0 <? win s); reflexivity. Qed.
+
+Lemma f_read_shape : forall cs s n,
+  exists k, k <= n /\ snd (f_read cs s n) = Ok (slice (concat cs) (off s) k) /\
+            off (fst (f_read cs s n)) = off s + k.
+Proof.
+  intros. unfold f_read. cbn [fst snd]. exists (N.min n (win (refill cs s))).
+  rewrite refill_off. unfold f_advance. cbn [off]. rewrite refill_off. splits; fin; lia.
+Qed.
+
+Lemma f_loop_mono : forall cs fuel s rem acc, off s <= off (fst (f_read_loop cs fuel s rem acc)).
+Proof.
+  induction fuel as [|k IH]; intros s rem acc; cbn [f_read_loop fst]; [lia|].
+  destruct (rem =? 0); [cbn [fst]; lia|].
+  destruct (f_read_shape cs s rem) as (k0 & _ & Hs & Ho).
+  destruct (f_read cs s rem) as [s1 r1]. cbn [fst snd] in *. subst r1.
+  destruct (len _ =? 0); [cbn [fst]; lia|].
+  eapply N.le_trans; [|apply IH]. lia.
+Qed.
+
+Definition is_seek (o : op) : bool :=
+  match o with Seek _ | SeekU _ => true | _ => false end.
+
+Lemma fstep_mono : forall f s o s' x, is_seek o = false -> fstep f s o = Some (s', x) -> off s <= off s'.
+Proof.
+  intros f s o s' x Hns H. destruct o as [n|n|n| |n|v|p]; try discriminate; cbn [fstep] in H.
+  - destruct (f_read_shape (chunks f) s n) as (k & _ & _ & Ho).
+    destruct (f_read (chunks f) s n) as [s1 r1]. inversion H; subst. cbn [fst] in Ho. lia.
+  - unfold f_read_exact in H. destruct (n <=? win s).
+    + inversion H; subst. unfold f_advance. cbn [off]. lia.
+    + pose proof (f_loop_mono (chunks f) (S (N.to_nat n)) s n []) as Hm.
+      unfold f_read_exact_std in H.
+      destruct (f_read_loop (chunks f) (S (N.to_nat n)) s n []) as [s1 r1]. inversion H; subst. exact Hm.
+  - pose proof (f_loop_mono (chunks f) (S (N.to_nat n)) s n []) as Hm.
+    unfold f_read_exact_std in H.
+    destruct (f_read_loop (chunks f) (S (N.to_nat n)) s n []) as [s1 r1]. inversion H; subst. exact Hm.
+  - unfold f_fill in H. inversion H; subst. rewrite refill_off. lia.
+  - inversion H; subst. unfold f_consume, f_advance. cbn [off]. lia.
+Qed.
+
+Fixpoint nondecr (start : N) (l : list N) : Prop :=
+  match l with [] => True | x :: r => start <= x /\ nondecr x r end.
+
+Lemma frun_mono : forall f ops s fl, forallb (fun o => negb (is_seek o)) ops = true ->
+  frun f s ops = Some fl -> nondecr (off s) (map snd fl).
+Proof.
+  induction ops as [|o r IH]; intros s fl Hns H; cbn [frun] in H.
+  - inversion H; subst. exact I.
+  - cbn [forallb] in Hns. apply andb_prop in Hns. destruct Hns as [Ho Hr].
+    destruct (fstep f s o) as [[s' x]|] eqn:E; [|discriminate].
+    destruct (frun f s' r) as [l|] eqn:E2; [|discriminate]. inversion H; subst.
+    cbn [map snd nondecr]. split; [|apply IH; assumption].
+    eapply fstep_mono; [|exact E]. destruct (is_seek o); [discriminate | reflexivity].
+Qed.
+
+(* ---- witnesses of the two known classes -------------------------------------------------- *)
+
+Definition wit_file : file := [mkFrame 33 [104; 101; 108; 108; 111]; mkFrame 28 []].
+Definition wit_noeof : file := [mkFrame 33 [104; 101; 108; 108; 111]].
+
+(* seek-eof-stale-block: read "hello", seek to (61,0) = end of file, read again -> "hello" again *)
+Lemma seek_eof_stale_witness :
+  run wit_file (gzi_of wit_file) (init wit_file) [Read 5; Seek (pack 61 0); Read 5]
+  = [ (OBytes (Ok [104; 101; 108; 108; 111]), Ok (pack 33 0));
+      (OPos (Ok (pack 61 0)), Ok (pack 0 0));
+      (OBytes (Ok [104; 101; 108; 108; 111]), Ok (pack 33 0)) ].
+Proof. vm_compute. reflexivity. Qed.
+
+(* direct-read-at-eof-stale-len: without EOF marker, a 64 KiB read at the end reports 5 bytes *)
+Lemma direct_read_stale_witness :
+  run wit_noeof (gzi_of wit_noeof) (init wit_noeof) [Read 65536; Read 65536]
+  = [ (OBytes (Ok [104; 101; 108; 108; 111]), Ok (pack 33 0));
+      (OBytes (Ok [170; 170; 170; 170; 170]), Ok (pack 33 0)) ].
+Proof. vm_compute. reflexivity. Qed.
